@@ -157,7 +157,7 @@ def match_laws(p, cfg, strs, vs):
 def translate_laws(cfg, rels, outs, vs):
     """default translate on two mock providers with asymmetric case modes"""
     n = 0
-    for lcs, rcs in ((True, True), (True, False), (False, True)):
+    for lcs, rcs in ((True, True), (True, False), (False, True), (False, False)):
         l = MockProvider(False, lcs)
         r = MockProvider(False, rcs)
         l.connection_id, r.connection_id = "L", "R"
@@ -179,6 +179,27 @@ def translate_laws(cfg, rels, outs, vs):
                     if ok and (not back or not cs.providers[side].paths_match(back, p)):
                         vs.setdefault(("translate", "round-trip"), {"law": "translate", "path": p, "there": other,
                                                                     "back": back, "modes": [lcs, rcs]})
+            # the root spelled in another case is inside exactly when THAT side's provider is case-insensitive
+            for rel in rels[::7]:
+                for side, root in ((0, "/local"), (1, "/remote/sub")):
+                    prov = cs.providers[side]
+                    p = prov.join(root.upper(), rel)
+                    n += 1
+                    ok, other = _call(vs, "translate", cs.translate, 1 - side, p)
+                    if not ok:
+                        continue
+                    if prov.case_sensitive and other:
+                        vs.setdefault(("translate", "other-case-root-accepted-by-cs-side"),
+                                      {"law": "translate", "path": p, "side": side, "got": other, "modes": [lcs, rcs]})
+                    if not prov.case_sensitive:
+                        if not other:
+                            vs.setdefault(("translate", "other-case-root-declined-by-ci-side"),
+                                          {"law": "translate", "path": p, "side": side, "modes": [lcs, rcs]})
+                        else:
+                            ok, back = _call(vs, "translate", cs.translate, side, other)
+                            if ok and (not back or not prov.paths_match(back, p)):
+                                vs.setdefault(("translate", "round-trip-other-case-root"),
+                                              {"law": "translate", "path": p, "there": other, "back": back, "modes": [lcs, rcs]})
             for o in outs:
                 for side in (0, 1):
                     n += 1
